@@ -4,13 +4,14 @@ import os, random, json
 import kv, gen
 
 
-def plant(rng, L, alpha, nsub, indels, over):
-    """returns a, b, path (0 both, 1 gap in a, 2 gap in b): b is the base, a is derived by the planted script"""
+def plant(rng, L, alpha, nsub, indels, over, at=None):
+    """returns a, b, path (0 both, 1 gap in a, 2 gap in b): b is the base, a is derived by the planted script;
+    at = {position in b: (kind, k)} places the indels explicitly"""
     b = [rng.choice(alpha) for _ in range(L)]
     a, path = [], []
     # positions of internal indels, well separated
-    marks = {}
-    if indels:
+    marks = dict(at or {})
+    if indels and not at:
         lo, hi = 8, max(9, L - 8)
         pos = sorted(rng.sample(range(lo, hi), min(len(indels), max(0, hi - lo))))
         # keep them apart
@@ -21,6 +22,16 @@ def plant(rng, L, alpha, nsub, indels, over):
         for p, ind in zip(keep, indels):
             marks[p] = ind
     subs = set(rng.sample(range(L), min(nsub, L)))
+    if at:
+        # explicit placement: make the run's position unambiguous (it cannot slide by a column without losing a match)
+        # and keep substitutions away from it, so that the planted alignment has a chance of being certified
+        for pos, (kind, k) in marks.items():
+            subs -= set(range(pos - 3, pos + k + 3))
+            if kind == "del" and 1 <= pos and pos + k < L:
+                while b[pos + k - 1] == b[pos - 1] or (k == 1 and b[pos] == b[pos + 1]):
+                    b[pos + k - 1] = rng.choice(alpha)
+                while b[pos + k] == b[pos] or (k == 1 and b[pos + k] == b[pos]):
+                    b[pos + k] = rng.choice(alpha)
     j = 0
     while j < L:
         if j in marks:
@@ -30,7 +41,13 @@ def plant(rng, L, alpha, nsub, indels, over):
                 j += k
                 continue
             if kind == "ins":                          # a has k extra residues: gap in b
-                a += [rng.choice(alpha) for _ in range(k)]
+                run = [rng.choice(alpha) for _ in range(k)]
+                if at and 1 <= j:
+                    while run[0] == b[j]:
+                        run[0] = rng.choice(alpha)
+                    while run[-1] == b[j - 1] or (k == 1 and run[0] == b[j]):
+                        run[-1] = rng.choice(alpha)
+                a += run
                 path += [2] * k
         c = b[j]
         if j in subs:
@@ -148,6 +165,32 @@ def cases(rng, tier):
             ty = rng.choice([3, 5])
             ka, kb = rng.randint(2, 3), rng.randint(2, 3)
         C.append(dict(id="q%d" % i, a=a, b=b, p=p, type=ty, pens=pens, ka=ka, kb=kb, kind=kind, threads=rng.choice([1, 4])))
+    # a gap run in the longer sequence that CROSSES a split row of the recursion (rows = the shorter sequence, split rows are
+    # L/2, L/4, ... on the left-most chain of blocks and L - L/2^k on the right-most one): the meetup's gb->gb transition,
+    # which must cost the internal extension there (found by the thorough tier on the pinned tree: it cost tgpe)
+    m = 24 if tier == "quick" else 240
+    for i in range(m):
+        kind = "dna" if i % 4 else "protein"
+        alpha = gen.DNA if kind == "dna" else "DEFHIKLMPQRSVWY" + "ACGT"
+        L = rng.choice([64, 100, 150, 200]) if tier == "quick" or i % 8 else rng.choice([512, 600])
+        j = 1 + i % 4
+        row = L >> j if (i // 4) % 2 == 0 else L - (L >> j)
+        k = rng.choice([2, 3, 5])
+        start = max(6, row - rng.randint(1, k - 1))
+        far = (start + L // 2) % L
+        far = min(max(far, 8), L - 12)
+        if abs(far - start) < k + 10:
+            far = L - 12 if start < L // 2 else 8
+        at = {start: ("del", k), far: ("ins", k + rng.choice([3, 6]))}
+        a, b, p = plant(rng, L, alpha, rng.choice([0, L // 20]), None, (0, 0, 0, 0), at=at)
+        ty = [5, 2, 0, 1][(i // 2) % 4] if kind == "dna" else [3, 4, 5][i % 3]
+        if L >= 500 and ty in (2, 5) and kind == "dna":
+            ty = 1
+        pens = (-1, -1, -1)
+        if i % 5 == 4:
+            pens = (30, 2, 9) if kind == "protein" else ((20, 1, 8) if ty in (0, 1) else (217, 39.4, 0))
+        ka, kb = (1, 1) if i % 3 else (rng.randint(1, 3), rng.randint(1, 3))
+        C.append(dict(id="s%d" % i, a=a, b=b, p=p, type=ty, pens=pens, ka=ka, kb=kb, kind=kind, threads=rng.choice([1, 4])))
     return C
 
 
